@@ -13,6 +13,11 @@ TRUSTED_BASE = [
     "Macro/Inst.v (hand): which translated template implements which operator of an instance; checked against the generated impl table by the computed fact wiring_ok (theorem C08_catalogue)",
     "amount types are abstract in these theorems (no axiom; no property of + - * / is used)",
 ]
+LEVEL = ("Coq theorems (Props/C08.v), for EVERY amount (NaN, signed zeros, infinities, any decimal representation), every unit and both back-ends at once because the amount type is abstract: "
+         "constructor/accessor round trip for every generated definition, amount*unit = unit*amount = new, normal forms of k*q, q*k, q/k (operand order, unit untouched), the dimensionless type's facts; "
+         "for the current tree the instance laws and the wiring of operators to the translated templates are computed over every definition (main, astronomical, synthetic). "
+         "The templates are re-translated from the repository's own codegen() output on every run, so a changed body breaks a proof; the correspondence + oracle then look for a failing input.")
+LEVEL_NOTE = "Trusted: Coq kernel, translator rs2j+j2v (literal translation of the generated fn bodies), Macro/Inst.v (wiring, cross-checked by wiring_ok), the model of Rust struct/field semantics; no axioms."
 ASSUMPTIONS = [
     "Rust struct construction/field access and operator dispatch behave as the translated terms (validated by the correspondence run on every unit of every type, both back-ends)",
     "the harness feeds the same inputs to implementation and model",
